@@ -469,7 +469,10 @@ func init() {
 			// a request raised while disabled changes nothing until accepted: the block
 			// instructions and HALT with a refused request pending behave as without it
 			for _, e := range append(encsOf("block"), Enc{0, 0x76}, Enc{0, 0xfb}, Enc{0, 0xf3}) {
-				jobs = append(jobs, Job{Dir: "z80", Harness: "VC06Refused", Params: []int{e.Tbl, e.Op, 0}, Label: fmt.Sprintf("VC06Refused/%s/n0", e)})
+				// without and with data on the bus (a mode-2 vector, a mode-0 instruction)
+				for _, n := range []int{0, 1, 3} {
+					jobs = append(jobs, Job{Dir: "z80", Harness: "VC06Refused", Params: []int{e.Tbl, e.Op, n}, Label: fmt.Sprintf("VC06Refused/%s/n%d", e, n)})
+				}
 			}
 			// relational form: (accept; handler; return; X) vs (X) for the instruction X at the boundary
 			encs := append(reprEncs(), encsOf("ctl", "ir")...)
@@ -597,6 +600,13 @@ func init() {
 			// maskable request pending at entry (accepted, refused or never consumable)
 			jobs = append(jobs, Job{Dir: "z80", Harness: "VC08Script", Params: []int{0, 3, 2}, Label: "VC08Script/run-returns-on-halt/any-im", MaxForks: 4096, MaxPaths: 100000})
 			jobs = append(jobs, Job{Dir: "z80", Harness: "VC08Script", Params: []int{0, 3, 1}, Label: "VC08Script/run-returns-on-halt/nmi", MaxForks: 4096, MaxPaths: 100000})
+			// termination probe for the single-Step jobs: if the exploration is cut short inside a loop,
+			// look for an input on which the real Step does not come back
+			for k := range jobs {
+				if jobs[k].Harness == "VStep" {
+					jobs[k].ProbeHang = true
+				}
+			}
 			return jobs
 		},
 		Only: func(job Job, a string) bool {
